@@ -32,8 +32,9 @@ A `drive <via> <seq|par> <ops>` section says HOW the case is driven.  `ops` is t
 (r = next registration, n = next `with_service_name`, i / o = `include_reflection_service(true /
 false)`): the model runs it call by call (`Reflection.Builder.run`), the oracle reads `inc`, `chosen`,
 `regs` of the case, which must be what the documented API says the program configures
-(`Spec.Reflection.includeOf` …; otherwise the case is bad).  `via` and `par` are not inputs of
-the model at all: the transport and the concurrency of streams must be invisible, so the same
+(`Spec.Reflection.includeOf` …; otherwise the case is bad).  `via` and seq / par / step are not inputs of
+the model at all: the transport, the concurrency of streams and the pacing of the requests (all sent
+up front, or each only after the previous answer was read) must be invisible, so the same
 prediction and the same clauses apply to every way of driving.
 
 Comparison with the model (DESIGN §3.3): an error is its status code (`err <code>`; its class is
@@ -194,7 +195,8 @@ def pCase : PM Case := do
     let via ← tok
     if !(via = "direct" || via = "routes" || via = "h2" || via = "h2z") then failure
     let p ← tok
-    let par ← if p = "par" then pure true else if p = "seq" then pure false else failure
+    -- seq / par / step (lock-step: request i+1 only after answer i): none of them is an input of the model
+    let par ← if p = "par" then pure true else if p = "seq" || p = "step" then pure false else failure
     let w ← tok
     let ops := if w = "-" then [] else w.toList
     let rest ← get
@@ -320,7 +322,7 @@ inductive OAns where
   | fd (i : Nat) (bytes : Option Bytes) (raw : String) | ext | svcs (l : List Name) | junk (what : String)
 
 inductive OEnd where
-  | fin | err (code : Nat) | callErr | junk
+  | fin | err (code : Nat) | callErr | stalled | junk
 
 inductive OBuild where
   | err | ok (streams : List (List OAns × OEnd)) | junk
@@ -341,6 +343,7 @@ def oStream : Nat → List String → List OAns → Option ((List OAns × OEnd) 
     | "end" :: "]" :: r => some ((acc.reverse, .fin), r)
     | "err" :: c :: "]" :: r => some ((acc.reverse, .err (c.toNat?.getD 0)), r)
     | "call-err" :: _ :: "]" :: r => some ((acc.reverse, .callErr), r)
+    | "stalled" :: "]" :: r => some ((acc.reverse, .stalled), r)
     | "r1" :: "fd" :: i :: w :: r => match i.toNat? with
         | some i => oStream fuel r (.fd i (unhex w) w :: acc)
         | none => none
@@ -439,6 +442,8 @@ def judgeStream (c : Case) (files : List File) : List Reflection.Request → Lis
   | [], [], .err _ => [("error-without-request", false)]
   | rq :: _, [], .err code => judgeEnd files rq.messageRequest code
   | _, [], .callErr => [("service-reachable", false)]
+  -- a lock-step client sent a request (or closed its side) and got nothing back
+  | _, [], .stalled => [("answers-every-request", false)]
   | _, [], .junk => [("stream-shape", false)]
 
 def judgeStreams (c : Case) (files : List File) : List (List Reflection.Request) → List (List OAns × OEnd) → List (String × Bool)
